@@ -1,8 +1,8 @@
 package main
 
 import (
-	"sort"
 	"fmt"
+	"sort"
 	"strings"
 
 	apb "github.com/google/fhir/go/proto/google/fhir/proto/annotations_go_proto"
@@ -97,7 +97,7 @@ func (g *genState) setPrimitive(m protoreflect.Message) bool {
 	case *dtpb.Uuid:
 		v.Value = fmt.Sprintf("urn:uuid:00000000-0000-4000-8000-%012d", g.r.intn(1000000))
 	case *dtpb.Base64Binary:
-		v.Value = []byte{1, 2, byte(g.r.intn(200))}
+		v.Value = [][]byte{{1, 2, byte(g.r.intn(200))}, {0xfb, 0xff, 0xfe}, {0x00, 0x3e, 0x3f, 0xff}, {0xff, 0xef, byte(g.r.intn(256)), 0xfa}}[g.r.intn(4)]
 	case *dtpb.Integer:
 		v.Value = int32(g.r.intn(2000) - 1000)
 	case *dtpb.PositiveInt:
